@@ -19,7 +19,7 @@ namespace Reach
     mypy/reachability.py (`inverted_truth_mapping`, `reverse_op`, the 25 + 25 operand pairs of the `or` / `and`
     branches, `fixed_comparison` per ordering, the special names) is what the model computes. -/
 theorem tables_match_source :
-    Gen.leavesOk = true ∧
+    Gen.missing = [] ∧ Gen.leavesOk = true ∧
     (Gen.invertPairs.length = 5 ∧ Gen.invertPairs.all (fun p => invert p.1 == p.2) = true) ∧
     (Gen.reverseKeys = 6 ∧ Gen.reversePairs.length = 6 ∧ Gen.reversePairs.all (fun p => reverseOp p.1 == p.2) = true) ∧
     (Gen.orEntries.length = 25 ∧ Gen.orEntries.all (fun e => orTable e.1 e.2.1 == e.2.2) = true) ∧
@@ -31,11 +31,11 @@ theorem tables_match_source :
 
 set_option maxRecDepth 8192 in
 /-- `Gen.openSliceFix` (does the tree's consider_sys_version_info have the open-ended-slice rule?) is the right
-    switch: on the regenerated probe grid around that rule (open-ended and closed slices × 6 operators × equal /
-    unequal literal × both operand orders, target 3.12) the model variant it selects returns what the real
+    switch: on the regenerated probe grid around that rule (open-ended and closed slices and the two indices × 6 operators ×
+    equal / unequal literal × both operand orders — the reversed spellings exercise `reverse_op` — target 3.12) the model variant it selects returns what the real
     function returned. -/
 theorem open_slice_rule_matches_source :
-    Gen.openSliceProbes.length = 144 ∧ Gen.openSliceProbes.all (fun e =>
+    Gen.openSliceProbes.length = 192 ∧ Gen.openSliceProbes.all (fun e =>
       versionValue { major := 3, minor := 12, platform := "linux", alwaysTrue := [], alwaysFalse := [],
                      openSliceFix := Gen.openSliceFix } e.1 e.2.1 e.2.2.1 == e.2.2.2) = true := by
   decide
